@@ -11,29 +11,29 @@ Local Open Scope list_scope.
 
 Lemma generated_rules_ok : rules_ok base_rules = true.
 Proof. vm_compute. reflexivity. Qed.
-Lemma generated_tables_ok : tables_ok pass_through_types known_string_constructor_errors = true.
+Lemma generated_tables_ok : tables_ok pass_through_types known_string_constructor_errors key_error_types = true.
 Proof. vm_compute. reflexivity. Qed.
 
 Theorem known_errors_keep_type : forall t : exc_type,
   In (et_name t) required_known ->
-  create_for pass_through_types known_string_constructor_errors base_rules t = Same.
-Proof. exact (known_keep_type_lemma _ _ _ generated_rules_ok generated_tables_ok). Qed.
+  create_for pass_through_types known_string_constructor_errors key_error_types base_rules t = Same.
+Proof. exact (known_keep_type_lemma _ _ _ _ generated_rules_ok generated_tables_ok). Qed.
 
 Theorem key_error_stays_key_error : forall t : exc_type,
-  et_name t = "builtins.KeyError"%string -> et_fact t = false ->
-  create_for pass_through_types known_string_constructor_errors base_rules t = MultilineKeyError.
-Proof. exact (key_error_lemma _ _ _ generated_rules_ok generated_tables_ok). Qed.
+  mem (et_name t) key_error_types = true -> et_fact t = false ->
+  create_for pass_through_types known_string_constructor_errors key_error_types base_rules t = MultilineKeyError.
+Proof. exact (key_error_lemma _ _ _ _ generated_rules_ok generated_tables_ok). Qed.
 
 Theorem staging_error_passes_through : forall t : exc_type,
   et_name t = "malt.impl.api.StagingError"%string ->
-  create_for pass_through_types known_string_constructor_errors base_rules t = Same.
-Proof. exact (staging_passes_lemma _ _ _ generated_rules_ok generated_tables_ok). Qed.
+  create_for pass_through_types known_string_constructor_errors key_error_types base_rules t = Same.
+Proof. exact (staging_passes_lemma _ _ _ _ generated_rules_ok generated_tables_ok). Qed.
 
 Theorem custom_constructor_is_staged : forall t : exc_type,
   mem (et_name t) pass_through_types = false -> et_fact t = false ->
-  mem (et_name t) known_string_constructor_errors = false -> et_name t <> "builtins.KeyError"%string ->
-  create_for pass_through_types known_string_constructor_errors base_rules t = Staging.
-Proof. exact (staged_lemma _ _ _ generated_rules_ok). Qed.
+  mem (et_name t) known_string_constructor_errors = false -> mem (et_name t) key_error_types = false ->
+  create_for pass_through_types known_string_constructor_errors key_error_types base_rules t = Staging.
+Proof. exact (staged_lemma _ _ _ _ generated_rules_ok). Qed.
 Print Assumptions known_errors_keep_type.
 Print Assumptions key_error_stays_key_error.
 Print Assumptions staging_error_passes_through.
